@@ -57,7 +57,8 @@ VARIABLES
 vars == <<req, pc, loc, store, lastLog, lastTx, refs, rl, wl, lq, seqOwner, pending, inflight,
           doneSet, resp, events, gen, crashes, cancelled>>
 
-Accts == {"A", "B", "C", "M", "world"}
+\* "BE": account B in a second asset (the harness maps it to the same address, asset EUR)
+Accts == {"A", "B", "BE", "C", "M", "world"}
 \* accounts as seen by the lock manager: "" is what an unregistered source shows up as
 LockAccts == Accts \cup {""}
 Zero == [a \in Accts |-> 0]
@@ -202,8 +203,10 @@ Resolved(p) ==
             IF req[p].postings[i].src = "$payer"
             THEN [req[p].postings[i] EXCEPT !.src = Payer] ELSE req[p].postings[i]]
 
-SourcesOf(ps) == {ps[i].src : i \in 1..Len(ps)} \ {"world"}
-TouchedBy(ps) == ({ps[i].src : i \in 1..Len(ps)} \cup {ps[i].dst : i \in 1..Len(ps)}) \ {"world"}
+\* locks are per address: "BE" is address B in the second asset
+Addr(a) == IF a = "BE" THEN "B" ELSE a
+SourcesOf(ps) == {Addr(ps[i].src) : i \in 1..Len(ps)} \ {"world"}
+TouchedBy(ps) == ({Addr(ps[i].src) : i \in 1..Len(ps)} \cup {Addr(ps[i].dst) : i \in 1..Len(ps)}) \ {"world"}
 
 \* exec(): compile, bind variables, resolve resources (reads account metadata), derive the lock sets
 S_Resolve(p) ==
